@@ -13,7 +13,9 @@ reach a branch condition or an argument of user policy code; (R6) the log that r
 init_state is this run's log: a new queues object starts with an empty log and records the
 init_state it was created with, nothing but on_tick's append writes either, run_workflow can only
 *create* queues (it refuses a run id that still has queues) and starts the loop from that same
-init_state.
+init_state; (R7) the live handler's view (ExternalContext._state, behind ctx.to_dict() and
+running_steps()) is rebuild_state_from_ticks(adapter.init_state, the adapter's whole log) and keeps
+nothing between calls.
 Not decided: equality of concrete states (pydantic/dataclass copies are trusted).
 """
 
@@ -173,6 +175,40 @@ def run(chk) -> None:
     for c in runs:
         chk.ob("C11.R6", "the control loop is started from the same init_state the queues recorded", bool(c.args) and ast.unparse(c.args[0]) == ist, m=mb, node=c, fn=rw, instance="log:same-init-run", reason=f"workflow_run_fn({ast.unparse(c.args[0]) if c.args else ''})")
 
+    # ---------------------------------------------------------------- R7 the live handler's view = rebuild(init_state, whole log)
+    from ..astx import dep_slice
+    mx = repo.module("workflows.context.external_context")
+    stf = mx.functions.get("ExternalContext._state")
+    if stf is None:
+        raise AnchorError("C11.R7: ExternalContext._state not found")
+    rebuilds = [c for c in ast.walk(stf) if isinstance(c, ast.Call) and (last(call_name(c)) or "").startswith("rebuild_state_from_ticks")]
+    chk.floor("C11.R7", "rebuild calls in ExternalContext._state", len(rebuilds), 1)
+    xcls = mx.classes.get("ExternalContext")
+    props = {n.name: n for n in xcls.body if isinstance(n, FuncNode)} if xcls is not None else {}
+    for c in rebuilds:
+        a0 = c.args[0] if c.args else kwarg(c, "state")
+        a1 = c.args[1] if len(c.args) > 1 else kwarg(c, "ticks")
+        # where the start state may come from: every definition that can flow into it must be `<adapter>.init_state`
+        s0 = dep_slice(stf, a0) if a0 is not None else None
+        srcs0 = [e for e in (s0.exprs if s0 else []) if not isinstance(e, ast.Name)]
+        ok0 = bool(srcs0) and all(isinstance(e, ast.Attribute) and e.attr == "init_state" or (isinstance(e, ast.Call)) for e in srcs0) and \
+            any(isinstance(e, ast.Attribute) and e.attr == "init_state" for e in srcs0) and not any(isinstance(x, ast.Attribute) and isinstance(x.value, ast.Name) and x.value.id == "self" and x.attr.startswith("_") and x.attr not in props for e in srcs0 for x in ast.walk(e))
+        chk.ob("C11.R7", "ExternalContext._state starts the rebuild from the adapter's init_state (never from a state computed earlier)", ok0, m=mx, node=c, fn=stf, instance="view:from-init-state",
+               reason=f"the start state may be {[ast.unparse(e)[:50] for e in srcs0]}: rebuild_state_from_ticks rewinds in-progress work first, which is only valid on the run's initial state")
+        s1 = dep_slice(stf, a1) if a1 is not None else None
+        srcs1 = [e for e in (s1.exprs if s1 else []) if not isinstance(e, ast.Name)]
+        whole = bool(srcs1) and not any(isinstance(x, ast.Subscript) for e in srcs1 for x in ast.walk(e))
+        def _is_log(e: ast.AST) -> bool:
+            if isinstance(e, ast.Call) and last(call_name(e)) == "replay":
+                return True
+            if isinstance(e, ast.Attribute) and isinstance(e.value, ast.Name) and e.value.id == "self" and e.attr in props:
+                return any(isinstance(r, ast.Return) and r.value is not None and isinstance(r.value, ast.Call) and last(call_name(r.value)) == "replay" for r in ast.walk(props[e.attr]))
+            return False
+        ok1 = whole and any(_is_log(e) for e in srcs1) and all(_is_log(e) or isinstance(e, ast.Call) for e in srcs1)
+        chk.ob("C11.R7", "… and replays the adapter's whole recorded log", ok1, m=mx, node=c, fn=stf, instance="view:whole-log", reason=f"the replayed ticks may be {[ast.unparse(e)[:50] for e in srcs1]}")
+    stores = [x for x in ast.walk(stf) if isinstance(x, ast.Attribute) and isinstance(x.ctx, ast.Store) and isinstance(x.value, ast.Name) and x.value.id == "self"]
+    chk.ob("C11.R7", "ExternalContext._state keeps nothing between calls", not stores, m=mx, node=stores[0] if stores else stf, fn=stf, instance="view:stateless", reason=f"writes self.{stores[0].attr if stores else ''}")
+
     # ---------------------------------------------------------------- R3 decorators forward the whole interface
     for iface, deco in (("InternalRunAdapter", "BaseInternalRunAdapterDecorator"), ("ExternalRunAdapter", "BaseExternalRunAdapterDecorator")):
         im = repo.methods(f"{PLUG}:{iface}")
@@ -277,6 +313,9 @@ def run(chk) -> None:
 
 
 TWINS = [
+    Twin("live view replays incrementally on a cached state", "packages/llama-index-workflows/src/workflows/context/external_context.py", "        state = snapshottable.init_state\n        new_state = rebuild_state_from_ticks(state, ticks)\n        return new_state", "        applied, state = getattr(self, \"_replayed\", None) or (0, snapshottable.init_state)\n        new_state = rebuild_state_from_ticks(state, ticks[applied:])\n        self._replayed = (len(ticks), new_state)\n        return new_state", "C11.R7"),
+    Twin("live view skips the first tick", "packages/llama-index-workflows/src/workflows/context/external_context.py", "        new_state = rebuild_state_from_ticks(state, ticks)", "        new_state = rebuild_state_from_ticks(state, ticks[1:])", "C11.R7"),
+    Twin("benign: live view without temporaries", "packages/llama-index-workflows/src/workflows/context/external_context.py", "        ticks = self._tick_log\n        snapshottable = self._require_snapshottable()\n        state = snapshottable.init_state\n        new_state = rebuild_state_from_ticks(state, ticks)\n        return new_state", "        return rebuild_state_from_ticks(self._require_snapshottable().init_state, self._tick_log)", None),
     Twin("finished run id reusable", BASIC_REL, "        if run_id in self._queues:\n            # not supported", "        previous = self._queues.get(run_id)\n        if previous is not None and not previous.complete.done():\n            # not supported", "C11.R6"),
     Twin("log not fresh", BASIC_REL, "        self.ticks: list[WorkflowTick] = []", "        self.ticks: list[WorkflowTick] = _SHARED_TICKS", "C11.R6"),
     Twin("loop started from another state", BASIC_REL, "                return await registered.workflow_run_fn(\n                    init_state, start_event, captured_tags", "                return await registered.workflow_run_fn(\n                    init_state.deepcopy(), start_event, captured_tags", "C11.R6"),
